@@ -15,7 +15,7 @@ func init() {
 		ID: "C11",
 		Explanation: "Structural necessary conditions of C11 in age.Encrypt: (R11.1) on every path through one iteration of the recipient loop that continues, either i == 0 and this recipient's labels become the reference, or slicesEqual(reference, labels) is true and the reference is unchanged; the false edge returns an error; " +
 			"(R11.2) sort.Strings on the recipient's labels dominates both uses; (R11.3) every use of dst lies behind the completed recipient loop, and headerMAC precedes Marshal, so any refusal leaves dst untouched; " +
-			"(R11.4) slicesEqual is length plus element-wise comparison over the full range; (R11.5) wrapWithLabels prefers RecipientWithLabels and otherwise returns Wrap's stanzas with nil labels; (R11.6) the plugin recipient returns the plugin's labels arguments and treats a repeat as an error.",
+			"(R11.4) slicesEqual is length plus element-wise comparison over the full range; (R11.5) wrapWithLabels prefers RecipientWithLabels and otherwise returns Wrap's stanzas with nil labels; (R11.6) the plugin recipient returns the plugin's labels arguments and treats a repeat as an error. (R11.9) no error result is dropped in Encrypt, wrapWithLabels and the WrapWithLabels methods.",
 		NotDecided:  "the multiset-versus-set corner of the statement (duplicate labels); behaviour of third-party Recipient implementations.",
 		Assumptions: []string{"sort.Strings sorts in place"},
 		Run:         runC11,
@@ -512,6 +512,39 @@ func runC11(p *Program, r *Result) {
 	r.Rule("R11.6", "the plugin recipient's label set is the plugin's labels arguments; a repeat is an error", 2)
 	checkPluginLabels(p, r)
 	// ---- R11.8
+	r.Rule("R11.9", "a recipient that fails to wrap makes the refusal: in Encrypt, wrapWithLabels and every WrapWithLabels of the module no error result is dropped or overwritten unseen (= R13.1 on these functions)", 3)
+	{
+		allow := loadAllowDropped(r)
+		for _, fn := range p.Funcs {
+			if fn.Pkg == nil || fn.Parent() != nil {
+				continue
+			}
+			pk := fn.Pkg.Pkg.Path()
+			if !(pk == pkgAge || pk == pkgSSH || pk == pkgPlugin) {
+				continue
+			}
+			switch fn.Name() {
+			case "Encrypt", "wrapWithLabels", "WrapWithLabels":
+			default:
+				continue
+			}
+			r.Saw(fn.String())
+			bad := ""
+			for _, s := range p.errSitesIn(fn) {
+				if s.Class != "dropped" {
+					continue
+				}
+				if _, ok := neverFails[s.Callee]; ok {
+					continue
+				}
+				if e, ok := inheritedDrop(p, allow, fn, s.Callee, 0); ok && siteAllowed(p, e, s) {
+					continue
+				}
+				bad = short(s.Callee) + " at " + r.pos(s.Call) + " (" + s.How + ")"
+			}
+			r.Check(bad == "", fn.String(), "wrap-errors-seen", "", "every error result is looked at", "the error of "+bad+" is dropped: a recipient that failed to wrap the file key is passed over and Encrypt writes a header without its stanza")
+		}
+	}
 	r.Rule("R11.8", "every plugin recipient announces the labels extension before it listens (phase 1 of the recipient machine = R16.1): a plugin that is not told about labels declares none", 1)
 	checkRecipientPhase1(p, r)
 	// ---- R11.7
